@@ -214,6 +214,25 @@ pub fn gen(seed: u64, tier: Tier, k: u64) -> Value {
         // which % 8: 0..3 = clearly over / under the limits, 4 = (same as 0), 5..7 = exact boundary 65535 / 65536 / 65537
         return gen_limit(seed, (k % 150) % 8 + if tier == Tier::Quick { 0 } else { 8 * (k / 150) });
     }
+    if (tier == Tier::Quick && (12..24).contains(&k)) || (tier == Tier::Thorough && (8..40).contains(&(k % 150))) {
+        // very small value stores whose total size crosses a power of 256 (256, 65536) inside their last value: the width of
+        // the offsets and of the data size in the store's tail are decided by different quantities
+        let mut rng = Rng::keyed(seed, "C02-small-stores", k);
+        let indexed = k % 2 == 0;
+        let n = rng.range(2, 4) as usize;
+        let col = if k % 3 == 0 { Col::ArrLong } else { Col::ArrLen256 };
+        let st = StoreDef {
+            n,
+            common: vec![PDef { name: "v".into(), kind: PKind::Array { prefix: *rng.pick(&[0u8, 0, 2, 5]), store: 0 }, col }, PDef { name: "id".into(), kind: PKind::UInt, col: Col::Seq }],
+            variants: vec![],
+            sort: None,
+            unique_keys: false,
+        };
+        let case = DirCase { seed: rng.next(), vstores: vec![indexed], stores: vec![st], indexes: vec![IndexDef { name: "index0".into(), store: 0, offset: 0, count: n as u32 }], defer: 0, free: 0 };
+        let mut v = case.to_json();
+        v["via"] = json!(if rng.chance(1, 2) { "file" } else { "mem" });
+        return v;
+    }
     let mut rng = Rng::keyed(seed, "C02", k);
     let nv = rng.range(0, 3) as usize;
     let vstores: Vec<bool> = (0..nv).map(|_| rng.chance(1, 2)).collect();
@@ -426,6 +445,7 @@ pub fn verify_dir(case: &DirCase, inst: &Installed, pack: &Arc<jbk::reader::Dire
             for (name, v) in &em.vals {
                 let expected = match v {
                     Val::Ref(t) => resolved_ref(st, name, inverse[ix.store][*t]),
+                    Val::RefO(ts, t) => Val::U(inverse[*ts][*t] as u64),
                     other => other.clone(),
                 };
                 match re.vals.get(name) {
@@ -488,7 +508,7 @@ pub fn value_kind(v: &Val) -> &'static str {
         Val::S(_) => "sint",
         Val::A(_) => "array",
         Val::C(..) => "content",
-        Val::Ref(_) => "ref",
+        Val::Ref(_) | Val::RefO(..) => "ref",
     }
 }
 
